@@ -90,7 +90,6 @@ func run(r *report.Run, shard, nshards int, replayFile string) {
 	// ---- part 1
 	acts := actions(w.App.AppCodec(), r.Thorough())
 	var total, distinct int64
-	perAction := map[string]interface{}{}
 	for i, a := range acts {
 		if i%nshards != shard || only == "ids" {
 			continue
@@ -98,7 +97,7 @@ func run(r *report.Run, shard, nshards int, replayFile string) {
 		n, d := checkInjective(r, a)
 		total += n
 		distinct += d
-		perAction[a.Name] = map[string]interface{}{"tuples": n, "distinct_bytes": d, "fields": fieldSizes(a)}
+		r.Extra["alphabet_sizes_"+a.Name] = fieldSizes(a)
 		r.Extra["tuples_"+a.Name] = float64(n)
 	}
 	if shard == 0 && only != "ids" {
